@@ -1329,6 +1329,32 @@ func ruleCalleeWake(r *core.Reporter) {
 						r.HeldAt(key, p.InstrPos(op.in), 1, "channel local to the function and the goroutines it starts")
 						continue
 					}
+					// a channel parameter that every caller fills with a channel local to itself
+					if par := resolveParam(op.ch, 0); par != nil && par.Parent() == cal {
+						idx, sites, allLocal := paramIndex(par), 0, true
+						for _, f := range p.ModFuncs {
+							allInstrs(f, func(x ssa.Instruction) {
+								if c, isC := x.(*ssa.Call); isC && ir.CalleeOf(c.Common()) == cal {
+									sites++
+									if idx < 0 || idx >= len(c.Call.Args) {
+										allLocal = false
+										return
+									}
+									var leaves []ssa.Value
+									phiLeaves(ir.Strip(c.Call.Args[idx]), map[ssa.Value]bool{}, &leaves)
+									for _, l := range leaves {
+										if localMakeChan(l) == nil && !ir.IsNilConst(l) {
+											allLocal = false
+										}
+									}
+								}
+							})
+						}
+						if sites > 0 && allLocal {
+							r.HeldAt(key, p.InstrPos(op.in), 1, "channel parameter: every caller passes a channel local to itself (rendezvous with work it started)")
+							continue
+						}
+					}
 					if _, isDone := ir.IsDoneChan(op.ch); isDone && op.kind == "recv" {
 						r.HeldAt(key, p.InstrPos(op.in), 1, "waits for cancellation itself")
 						continue
